@@ -35,6 +35,11 @@ CHECKS = {
    technique="TLA+ token-level reference (EnumRule.tla), TLC graph dump, token paths printed to text and replayed on rules/enum and on schemas using the rule by name vs inline",
    text="EnumRule.tla defines acceptance (bracketed list of distinct non-exponent scalars, annotations where the repository's tests place them), the value list and the duplicate relation over a 12-scalar catalogue (\"1\" vs 1, \"a\" vs \"\\u0061\", 1.0 vs 1, -0, 1e2 ...). TLC checks that an accepted prefix never holds duplicates and dumps the 13.6k-state graph; the harness replays the access sequence of every state followed by every token sequence <= k and seeded random walks (Check, Values with kinds), and for every distinct accepted item list compares `v // {enum: @rule}` with `v // {enum: [list]}` (verdict, error code, example) and with membership for every catalogue value.",
    note="Annotation placements outside those shown by the repository's tests, the empty list and merged number tokens have no verdict (counted inconclusive). Comment-only entries of Values() are ignored."),
+ "C10": dict(
+   category="model_checking", design_ref="DESIGN.md §3 C10",
+   technique="TLA+ model of the public API as a system (SchemaApi.tla) enumerated by TLC into call histories replayed on the real library; pool refinement (Pools.tla) model-checked; pool events recorded through verif hooks validated by TLC (PoolsTrace)",
+   text="SchemaApi.tla enumerates every history of object creation, AddType and Check/Example/GetAST/Len/UsedUserTypes/OpenAPI calls over 2-3 objects and an 8-text catalogue (valid shallow/nested/deeper, scanner/loader/checker failures, type reference). Each history is replayed sequentially in a worker process: every result is compared with the fresh-object reference, every result still held is re-read after every later call. Pools.tla (buffer pool with ReturnCopy) satisfies HeldStable/NoLiveAlias, its ReturnAlias variant is the negative control. A stride sample of histories also records pool Get/Put/return events (with buffer identity and result-memory aliasing) through the hooks; TLC validates them against PoolsTrace.",
+   note="Contents limited to the catalogue; one object is the type of at most one root. When a project has two independent defects only error-vs-value is compared (which defect wins is C09)."),
 }
 
 REASON_PENDING = "check not built yet in this round (design in DESIGN.md §3); no claim is made"
